@@ -268,9 +268,8 @@ func (x *Exec) runFPCheck(fc *FPCheck, fu *FuncUnit) (failure string, bindErr st
 			return false
 		}
 		if st, ok := n.(ast.Stmt); ok {
-			src := normWS(x.src(st))
 			for i, a := range fc.Runs {
-				if stmts[i] == nil && strings.HasPrefix(src, a) {
+				if stmts[i] == nil && x.anchorMatches(st, a) {
 					if _, isBlock := st.(*ast.BlockStmt); !isBlock {
 						stmts[i] = st
 					}
